@@ -157,7 +157,13 @@ theorem refusal_classes (hs : List Path) (c : Call) (e : Err) (h : translate hs 
       · cases h; simp
       · cases h2 : hguard hs n .hiddenPerm with
         | error e' => rw [h2] at h; cases h; exact key _ _ _ h2 (Or.inr rfl)
-        | ok u2 => rw [h2] at h; cases h
+        | ok u2 =>
+          rw [h2] at h
+          simp only at h
+          split at h
+          · rename_i e' hp; cases h; exact Or.inr (Or.inr (Or.inr (parentKey _ _ hp)))
+          · cases h; simp
+          · cases h
   · rename_i o n
     cases h1 : hguard hs (if isAbs o = true then o else join (dir n) o) .hiddenPerm with
     | error e' => rw [h1] at h; cases h; exact key _ _ _ h1 (Or.inr rfl)
